@@ -8,14 +8,110 @@ THOROUGH_CONFIGS = ['cmake-release', 'autotools', 'autotools-debug']
 
 EXPECTED_UNITS = 28
 
+# Instance floors: a rule that matches (almost) nothing would pass vacuously, so the run is analysis-broken (exit 2) below
+# these counts.  They are ~40% of the counts confirmed on the pinned tree (exact for the fixed-size tables); rules whose
+# subject can legitimately disappear in a behaviour-preserving refactoring (e.g. no predecessor-pointer loop left, no
+# memcpy within one object left) have no floor.
+FLOORS = {
+    "C01": {
+        "T1": 13,
+        "T2": 3,
+        "T3": 9,
+        "T4": 2
+    },
+    "C04": {
+        "T1": 13,
+        "T2": 3,
+        "T5": 2
+    },
+    "C05": {
+        "S1": 1,
+        "S2": 1,
+        "T4": 1
+    },
+    "C07": {
+        "I1": 6,
+        "I2": 56,
+        "I3": 1,
+        "I4": 2,
+        "I5": 3
+    },
+    "C08": {
+        "L1": 1,
+        "L2": 1,
+        "L3": 1,
+        "L4": 3,
+        "T4": 2
+    },
+    "C09": {
+        "E1": 8,
+        "E2": 3,
+        "T4": 1
+    },
+    "C10": {
+        "IDX": 4,
+        "V1": 1
+    },
+    "C11": {
+        "IDX": 4,
+        "M2": 16,
+        "M3": 26
+    },
+    "C12": {
+        "R1": 28,
+        "R3": 19
+    },
+    "C13": {
+        "B-guard": 20,
+        "B-immut": 53,
+        "B-single": 38
+    },
+    "C14": {
+        "A-exit": 27,
+        "A-macro": 7,
+        "A-mutex-field": 3
+    },
+    "C15": {
+        "A1": 29,
+        "A2": 38,
+        "A3": 29
+    },
+    "C16": {
+        "TB1": 257,
+        "TB2": 64,
+        "TB3": 256,
+        "TB4": 15,
+        "TB5": 2,
+        "TB6": 1,
+        "TB7": 1
+    },
+    "C17": {
+        "CU1": 4,
+        "CU3": 24
+    },
+    "C18": {
+        "H1": 2,
+        "H3-m128": 9,
+        "H3-m32": 4,
+        "H4-fnv": 1,
+        "H5-md5": 70,
+        "H6": 3
+    },
+    "C19": {
+        "Q1": 1
+    },
+    "C20": {
+        "B1": 3,
+        "B2": 1,
+        "B3": 4,
+        "B4": 1
+    }
+}
+
 
 def c14(prog, rep):
     from .lock import rule_c14
     rule_c14(prog, rep)
-    rep.floor('A-exit', 55)
-    rep.floor('A-exit', 600, 'obligations')
-    rep.floor('A-macro', 14)
-    rep.floor('A-mutex-field', 8)
     rep.explanation = (
         'Lock-depth typestate over the CFG of every function of every compiled unit. '
         'Q_MUTEX_ENTER/Q_MUTEX_LEAVE (recognised by macro identity at the expansion site) are +1/-1 '
@@ -37,9 +133,6 @@ def c14(prog, rep):
 def c13(prog, rep):
     from .lockset import rule_c13
     rule_c13(prog, rep)
-    rep.floor('B-guard', 40)
-    rep.floor('B-single', 70)
-    rep.floor('B-immut', 80)
     rep.explanation = (
         'Guarded-by (lockset) discipline: for every container operation C13 names (insert/put, get, remove/pop, '
         'clear, toarray/tostring of tree table, hash table, list table, list/queue/stack, vector) every access to '
@@ -72,14 +165,6 @@ def c11(prog, rep):
     CH.rule_s3(prog, rep, C.C11_UNITS)
     IX.rule_idx(prog, rep)
     O.rule_m5(prog, rep, C.C11_UNITS)
-    rep.floor('S3', 1)
-    rep.floor('IDX', 8)
-    rep.floor('M5', 2)
-    rep.floor('M1', 6)
-    rep.floor('M2', 30)
-    rep.floor('M3', 50)
-    rep.floor('M4', 9)
-    rep.floor('H2', 2)
     rep.explanation = (
         'Structural memory-safety clauses over the 11 anchored units, all CFG paths: M1 every memcpy/strcpy/strncpy whose '
         'operands can share a base object (origins over reaching definitions) must be provably disjoint (affine distance = '
@@ -106,11 +191,6 @@ def c15(prog, rep):
     O.rule_m2(prog, rep, om, units, sm, fault=True, rid='M2f')
     from . import tree as T
     T.rule_a4(prog, rep, T.restructurers(prog)[0])
-    rep.floor('A4', 2)
-    rep.floor('A1', 60)
-    rep.floor('A2', 60)
-    rep.floor('A3', 60)
-    rep.floor('M2f', 25)
     rep.explanation = (
         'Fault-path discipline in the nine container units (and qinternal.h macros as expanded there), all CFG paths with '
         'path-sensitive value tracking: A1 every allocation result (malloc/calloc/realloc/strdup/qmemdup/qstrdupf and repo '
@@ -135,15 +215,8 @@ def c12(prog, rep):
     C.rule_m4(prog, rep, E.ACCESSOR_UNITS + ['src/utilities/qstring.c'], rid='R2-len')
     E.rule_r2_move(prog, rep, E.ACCESSOR_UNITS)
     E.rule_r2_fill(prog, rep, E.ACCESSOR_UNITS)
-    rep.floor('R2-fill', 2)
     from . import hasharr as HA
     HA.rule_i7(prog, rep)
-    rep.floor('R2-move', 4)
-    rep.floor('I7', 2)
-    rep.floor('R1', 55)
-    rep.floor('R3', 38)
-    rep.floor('R2', 8)
-    rep.floor('R2-len', 9)
     rep.explanation = (
         'R1: for every raw key/value pointer parameter (const void*/const char*/void*/char*) of every public function of the '
         'nine container units, the pointer value (through locals, offsets, casts, ?:, strchr-like derivations and callee '
@@ -162,15 +235,6 @@ def c16(prog, rep):
     T.rule_c16(prog, rep)
     T.rule_b64_staging(prog, rep)
     T.rule_query_split(prog, rep)
-    rep.floor('TB8', 1)
-    rep.floor('TB9', 2)
-    rep.floor('TB1', 257)
-    rep.floor('TB2', 64)
-    rep.floor('TB3', 256)
-    rep.floor('TB4', 38)
-    rep.floor('TB5', 4)
-    rep.floor('TB6', 3)
-    rep.floor('TB7', 3)
     rep.explanation = (
         'Exhaustive check of every entry of the five codec tables, read from their initialiser lists in the type-checked AST '
         '(located by role and length inside their functions, not by name): URL classification table (256 entries: value is 0 '
@@ -187,14 +251,6 @@ def c07(prog, rep):
     HA.rule_c07(prog, rep)
     HA.rule_i7(prog, rep)
     HA.rule_i8(prog, rep)
-    rep.floor('I7', 2)
-    rep.floor('I8', 1)
-    rep.floor('I1', 10)
-    rep.floor('I2', 100)
-    rep.floor('I3', 4)
-    rep.floor('I4', 5)
-    rep.floor('I5', 6)
-    rep.floor('I6', 2)
     rep.explanation = (
         'I1: the image record types (header, slot, and every record nested by value, incl. the anonymous union) have no pointer, '
         'function-pointer or address-sized member - a type fact. I2: no pointer-to-integer conversion exists in qhasharr.c, no '
@@ -223,14 +279,6 @@ def c01(prog, rep):
     E.rule_r2_move(prog, rep, [T.UNIT])
     E.rule_r2_fill(prog, rep, [T.UNIT])
     T.rule_t6(prog, rep)
-    rep.floor('T6', 9)
-    rep.floor('R2', 3)
-    rep.floor('R2-move', 4)
-    rep.floor('T1', 25)
-    rep.floor('T2', 8)
-    rep.floor('T3', 18)
-    rep.floor('T3-root', 2)
-    rep.floor('T4', 4)
     rep.explanation = (
         'Structural clauses of "exact sorted map" visible in code shape, over all CFG paths of qtreetbl.c: T1 node keys are only '
         'compared through tbl->compare (one orientation for all 7 call sites), copied, freed or moved - never inspected directly '
@@ -249,8 +297,6 @@ def c04(prog, rep):
     T.rule_t5(prog, rep)
     o = T.rule_t1(prog, rep, rid='T1')
     T.rule_t2(prog, rep, o)
-    rep.floor('T5', 5)
-    rep.floor('T2', 8)
     rep.explanation = (
         'T5 (history-independence / termination precondition): every loop that climbs through the per-node parent link is '
         'reachable only after the root\'s parent link was cleared in the same call (directly or through reset_iterator; the guarded '
@@ -269,12 +315,6 @@ def c05(prog, rep):
     from . import escape as E
     E.rule_r2(prog, rep, [CH.UNIT])
     E.rule_r2_fill(prog, rep, [CH.UNIT])
-    rep.floor('R2', 1)
-    rep.floor('R2-fill', 1)
-    rep.floor('S1', 4)
-    rep.floor('S2', 3)
-    rep.floor('S3', 1)
-    rep.floor('T4', 3)
     rep.explanation = (
         'Sibling-agreement and protocol rules on qhashtbl.c: S1 put/get/remove compute the chain slot from the same closed '
         'expression (hash function, length argument, modulus field, obtained by expanding local definitions) and the walk resumes '
@@ -304,12 +344,6 @@ def c10(prog, rep):
     IX.rule_helper_index(prog, rep)
     IX.rule_growth(prog, rep)
     C.rule_m1(prog, rep, ['src/containers/qvector.c'])
-    rep.floor('V1', 3)
-    rep.floor('IDX', 8)
-    rep.floor('VC', 3)
-    rep.floor('V2', 5)
-    rep.floor('G1', 3)
-    rep.floor('M1', 2)
     rep.explanation = (
         'V1 configuration immutability (who-may-write over all units): objsize/options/initnum are written by qvector() only. IDX: '
         'for each of the 10 element-address computations vector->data + E*objsize, must-facts from dominating comparisons (each '
@@ -323,13 +357,6 @@ def c10(prog, rep):
 def c18(prog, rep):
     from . import hashrules as H
     H.rule_c18(prog, rep)
-    rep.floor('H1', 5)
-    rep.floor('H2', 2)
-    rep.floor('H3-m32', 9)
-    rep.floor('H3-m128', 22)
-    rep.floor('H4-fnv', 4)
-    rep.floor('H5-md5', 70)
-    rep.floor('H6', 6)
     rep.explanation = (
         'Algorithm-skeleton agreement, decided on the AST without computing any hash: each function is normalised into an ordered '
         'list of events (x *= C, x = rotl(x, a), x ^= y, x = x*5 + C, ...; constants folded, const locals substituted, rotates '
@@ -348,10 +375,6 @@ def c18(prog, rep):
 def c20(prog, rep):
     from . import configrules as CR
     CR.rule_c20(prog, rep)
-    rep.floor('B1', 9)
-    rep.floor('B2', 2)
-    rep.floor('B3', 10)
-    rep.floor('B4', 3)
     rep.explanation = (
         'Narrow structural clauses of the Apache-style parser (qaconf.c): B1 the literal set the boolean classifier compares against '
         '(case-insensitively) contains all eight documented spellings and maps the two polarities and "not a boolean" to three '
@@ -371,12 +394,6 @@ def c08(prog, rep):
     E.rule_r2(prog, rep, [LT.UNIT])
     E.rule_r2_move(prog, rep, [LT.UNIT])
     E.rule_r2_fill(prog, rep, [LT.UNIT])
-    rep.floor('L1', 2)
-    rep.floor('L2', 2)
-    rep.floor('L3', 2)
-    rep.floor('L4', 8)
-    rep.floor('L5', 5)
-    rep.floor('T4', 4)
     rep.explanation = (
         'Structural clauses of the ordered-multimap property in qlisttbl.c: L1 load returns a count incremented in the loading loop '
         'under the put result; L2 the sort exchanges neighbours only for a strictly positive comparison (stability) and exchanges '
@@ -395,11 +412,6 @@ def c09(prog, rep):
     K.rule_t4(prog, rep, om, units=[LR.LIST])
     E.rule_r2(prog, rep, [LR.LIST])
     E.rule_r2_fill(prog, rep, [LR.LIST])
-    rep.floor('E1', 20)
-    rep.floor('E2', 6)
-    rep.floor('E3', 2)
-    rep.floor('E4', 1)
-    rep.floor('T4', 3)
     rep.explanation = (
         'E1: through the method table, every queue insert variant (push/pushstr/pushint) resolves to one list end and every '
         'remove/peek variant (pop*/get*) to the opposite end (FIFO); every stack variant to the same end (LIFO); every grow add '
@@ -419,8 +431,6 @@ def c17(prog, rep):
     CU.rule_cu1(prog, rep)
     CU.rule_cu3(prog, rep, PARSER_UNITS)
     C.rule_m1(prog, rep, ['src/utilities/qencode.c', 'src/extensions/qaconf.c', 'src/extensions/qconfig.c', 'src/internal/qinternal.c'])
-    rep.floor('CU1', 10)
-    rep.floor('CU3', 50)
     rep.explanation = (
         'CU1: abstract interpretation over each enumerated scan function (URL/Base64/hex decoders, query parser, word splitter, the '
         'two tokeniser loops of the Apache-style parser, number/bool classifiers, INI line splitter and ${} scanner, list-table load) '
@@ -439,8 +449,6 @@ def c19(prog, rep):
     from . import index as IX, copy as C
     IX.rule_q1(prog, rep)
     C.rule_m1(prog, rep, ['src/utilities/qstring.c'])
-    rep.floor('Q1', 3)
-    rep.floor('M1', 3)
     rep.explanation = (
         'Q1: for the size-parameterised routines of qstring.c (qstrcpy, qstrncpy, qstrgets - found by their `char *dst, size_t size` '
         'signature) every write into the destination is bounded: block copies and indexed stores need the must-fact len < size '
@@ -488,6 +496,12 @@ def run(prop, tier):
         rep.broken_if(len(prog.units) < EXPECTED_UNITS - 2,
                       'only %d units found (expected about %d)' % (len(prog.units), EXPECTED_UNITS))
         spec['fn'](prog, rep)
+        if cfg == configs[0]:
+            for rid, n in FLOORS.get(prop, {}).items():
+                if rid in rep.rules:
+                    rep.floor(rid, n)
+                else:
+                    rep.broken.append('rule %s did not run' % rid)
     if tier == 'thorough' or os.environ.get('QV_SELFTEST'):
         from .mutants import run_selftest
         run_selftest(prop, rep, spec['fn'])
